@@ -100,3 +100,381 @@ def make_array(prog, sectors, duals, charge=0, symmetry="Z2", fermionic=False, p
         fields["_phases"] = dict(phases or {})
         fields["_oddpos"] = tuple(oddpos)
     return Obj(cls, fields)
+
+
+# ---------------------------------------------------------------------------------------------------------------
+# shaped tokens, the checker's own group models and the "valid array" audit
+# ---------------------------------------------------------------------------------------------------------------
+class STok:
+    """opaque block with a concrete shape: slicing, reshape and products keep track of shapes and provenance"""
+
+    _abstract = True
+
+    def __init__(self, term, shape):
+        self.term = term
+        self.shape = tuple(shape)
+
+    @property
+    def size(self):
+        n = 1
+        for d in self.shape:
+            n *= d
+        return n
+
+    @property
+    def ndim(self):
+        return len(self.shape)
+
+    def __getitem__(self, k):
+        ks = k if isinstance(k, tuple) else (k,)
+        shape = []
+        desc = []
+        dims = list(self.shape)
+        i = 0
+        for sl in ks:
+            if sl is None:
+                shape.append(1)
+                desc.append(None)
+                continue
+            d = dims[i]
+            i += 1
+            if isinstance(sl, slice):
+                shape.append(len(range(*sl.indices(d))))
+                desc.append((sl.start, sl.stop, sl.step))
+            elif isinstance(sl, int) and -d <= sl < d:
+                desc.append(sl)
+            else:
+                raise IndexError(f"index {sl!r} on an abstract block of shape {self.shape}")
+        shape += dims[i:]
+        return STok(("slice", self.term, tuple(desc)), shape)
+
+    def reshape(self, *shape):
+        if len(shape) == 1 and isinstance(shape[0], (tuple, list)):
+            shape = tuple(shape[0])
+        known = 1
+        for d in shape:
+            if d != -1:
+                known *= d
+        out = [self.size // max(known, 1) if d == -1 else d for d in shape]
+        n = 1
+        for d in out:
+            n *= d
+        if n != self.size:
+            raise ValueError(f"cannot reshape abstract block of shape {self.shape} into {tuple(shape)}")
+        return STok(("reshape", self.term, tuple(shape)), out)
+
+    def _bin(self, op, o, rev=False):
+        ot = getattr(o, "term", ("const", repr(o)))
+        return STok((op, ot, self.term) if rev else (op, self.term, ot), self.shape)
+
+    def __mul__(self, o):
+        return self._bin("mul", o)
+
+    def __rmul__(self, o):
+        return self._bin("mul", o, True)
+
+    def __add__(self, o):
+        if isinstance(o, STok) and o.shape != self.shape:
+            raise ValueError(f"adding abstract blocks of shapes {self.shape} and {o.shape}")
+        return self._bin("add", o)
+
+    def __radd__(self, o):
+        return self._bin("add", o, True)
+
+    def __sub__(self, o):
+        return self._bin("sub", o)
+
+    def __truediv__(self, o):
+        return self._bin("div", o)
+
+    def __neg__(self):
+        if isinstance(self.term, tuple) and self.term and self.term[0] == "neg":
+            return STok(self.term[1], self.shape)
+        return STok(("neg", self.term), self.shape)
+
+    def __eq__(self, o):
+        return isinstance(o, STok) and self.term == o.term and self.shape == o.shape
+
+    def __hash__(self):
+        return hash((self.term, self.shape))
+
+    def __repr__(self):
+        return f"STok{self.term}{self.shape}"
+
+
+class Model:
+    """the checker's own model of an abelian symmetry (independent of the repo's classes; those are decided by C17)"""
+
+    def __init__(self, name):
+        self.name = name
+        self.mod = {"Z2": (2,), "Z4": (4,), "U1": (None,), "Z2Z2": (2, 2), "U1U1": (None, None)}[name]
+
+    def _wrap(self, vals):
+        vals = tuple(v if m is None else v % m for v, m in zip(vals, self.mod))
+        return vals if len(self.mod) > 1 else vals[0]
+
+    def _tup(self, c):
+        return c if len(self.mod) > 1 else (c,)
+
+    def combine(self, *cs):
+        tot = [0] * len(self.mod)
+        for c in cs:
+            for i, v in enumerate(self._tup(c)):
+                tot[i] += v
+        return self._wrap(tot)
+
+    def sign(self, c, dual=True):
+        if not dual:
+            return c
+        return self._wrap([-v for v in self._tup(c)])
+
+    def parity(self, c):
+        return sum(self._tup(c)) % 2
+
+    def sector_charge(self, sector, duals):
+        return self.combine(*(self.sign(c, d) for c, d in zip(sector, duals)))
+
+
+def all_sectors(model, duals, charge, chargemaps):
+    import itertools
+
+    return [s for s in itertools.product(*[sorted(cm) for cm in chargemaps]) if model.sector_charge(s, duals) == charge]
+
+
+def shaped_array(prog, symname, duals, charge, chargemaps, tag="x", drop=(), fermionic=False, phases=None, oddpos=(), sectors=None):
+    """a valid array over shaped tokens: every charge-conserving sector (minus `drop`) holds a block STok((tag, sector))"""
+    model = Model(symname)
+    if sectors is None:
+        sectors = [s for s in all_sectors(model, duals, charge, chargemaps) if s not in set(drop)]
+    indices = tuple(make_index(prog, cm, d) for cm, d in zip(chargemaps, duals))
+    blocks = {s: STok((tag, s), tuple(cm[c] for cm, c in zip(chargemaps, s))) for s in sectors}
+    fields = {"_blocks": blocks, "_indices": indices, "_charge": charge, "_symmetry": make_symmetry(prog, symname)}
+    if fermionic:
+        fields["_phases"] = dict(phases or {})
+        fields["_oddpos"] = tuple(oddpos)
+    return Obj(prog.cls("FermionicArray" if fermionic else "AbelianArray"), fields)
+
+
+def _subinfo_problems(ix, model, where):
+    out = []
+    cm = ix.fields["_chargemap"]
+    sub = ix.fields.get("_subinfo")
+    if sub is None:
+        return out
+    ext = sub.fields["_extents"]
+    subix = sub.fields["_indices"]
+    if set(ext) != set(cm):
+        out.append(f"{where}: sub-index extents cover charges {sorted(ext)} but the index has {sorted(cm)}")
+    for c, e in ext.items():
+        if c in cm and sum(e.values()) != cm[c]:
+            out.append(f"{where}: extents of fused charge {c} add up to {sum(e.values())}, the index says {cm[c]}")
+        for subsector, d in e.items():
+            want = 1
+            okc = len(subsector) == len(subix)
+            for sc, si in zip(subsector, subix):
+                scm = si.fields["_chargemap"]
+                if sc not in scm:
+                    okc = False
+                else:
+                    want *= scm[sc]
+            if not okc:
+                out.append(f"{where}: sub-sector {subsector} of fused charge {c} names charges its sub-indices do not have")
+            elif want != d:
+                out.append(f"{where}: sub-sector {subsector} has extent {d}, its sub-indices give {want}")
+            else:
+                fused = model.combine(*(model.sign(sc, si.fields["_dual"] != ix.fields["_dual"]) for sc, si in zip(subsector, subix)))
+                if fused != c:
+                    out.append(f"{where}: sub-sector {subsector} is filed under fused charge {c}, its signed combination is {fused}")
+    for j, si in enumerate(subix):
+        out += _subinfo_problems(si, model, f"{where}.sub[{j}]")
+    return out
+
+
+def audit(arr, symname, want_class=None):
+    """the C01 validity predicate on an abstract array: a list of human-readable problems (empty = valid)"""
+    model = Model(symname)
+    out = []
+    if not isinstance(arr, Obj):
+        return [f"result is {type(arr).__name__}, not an array"]
+    if want_class is not None and arr.cls.name != want_class:
+        out.append(f"result is a {arr.cls.name}, expected {want_class}")
+    f = arr.fields
+    for k in ("_blocks", "_indices", "_charge"):
+        if k not in f:
+            return out + [f"result has no {k}"]
+    indices = f["_indices"]
+    if not isinstance(indices, tuple):
+        out.append(f"indices are stored as {type(indices).__name__}, not a tuple")
+        indices = tuple(indices)
+    duals = []
+    for i, ix in enumerate(indices):
+        if not isinstance(ix, Obj) or ix.cls.name != "BlockIndex":
+            out.append(f"index {i} is not a BlockIndex")
+            return out
+        cm = ix.fields["_chargemap"]
+        if list(cm) != sorted(cm):
+            out.append(f"index {i}: charge table {list(cm)} is not sorted")
+        if any((not isinstance(d, int)) or isinstance(d, bool) or d <= 0 for d in cm.values()):
+            out.append(f"index {i}: sizes {cm} are not all positive ints")
+        if not isinstance(ix.fields["_dual"], bool):
+            out.append(f"index {i}: direction {ix.fields['_dual']!r} is not a bool")
+        duals.append(bool(ix.fields["_dual"]))
+        out += _subinfo_problems(ix, model, f"index {i}")
+    for sector, blk in f["_blocks"].items():
+        if not isinstance(sector, tuple) or len(sector) != len(indices):
+            out.append(f"sector {sector!r} does not have one charge per index ({len(indices)})")
+            continue
+        if any(c not in ix.fields["_chargemap"] for c, ix in zip(sector, indices)):
+            out.append(f"sector {sector} names a charge missing from the index charge tables "
+                       f"{[sorted(ix.fields['_chargemap']) for ix in indices]}")
+            continue
+        tot = model.sector_charge(sector, duals)
+        if tot != f["_charge"]:
+            out.append(f"sector {sector} has signed charge {tot}, the array's total charge is {f['_charge']}")
+        if isinstance(blk, STok):
+            want = tuple(ix.fields["_chargemap"][c] for c, ix in zip(sector, indices))
+            if blk.shape != want:
+                out.append(f"block {sector} has shape {blk.shape}, the indices assign {want}")
+    if arr.cls.name == "FermionicArray" or "_phases" in f:
+        for sector, ph in f.get("_phases", {}).items():
+            if ph not in (1, -1):
+                out.append(f"pending sign of {sector} is {ph!r}")
+            if not isinstance(sector, tuple) or len(sector) != len(indices) or model.sector_charge(sector, duals) != f["_charge"]:
+                out.append(f"pending sign table names sector {sector}, which does not conserve the charge {f['_charge']}")
+        odd = f.get("_oddpos", ())
+        if len(odd) % 2 != model.parity(f["_charge"]):
+            out.append(f"{len(odd)} odd-position labels on an array of charge parity {model.parity(f['_charge'])}")
+    return out
+
+
+def shaped_backend():
+    """abstract backend functions over shaped tokens (shapes are tracked, contents are terms)"""
+
+    def qr(t):
+        m, n = t.shape
+        k = min(m, n)
+        return STok(("q", t.term), (m, k)), STok(("r", t.term), (k, n))
+
+    def svd(t, *a, **kw):
+        m, n = t.shape
+        k = min(m, n)
+        return STok(("u", t.term), (m, k)), STok(("s", t.term), (k,)), STok(("vh", t.term), (k, n))
+
+    def eigh(t):
+        m, n = t.shape
+        if m != n:
+            raise ValueError("eigh of a non-square abstract block")
+        return STok(("evals", t.term), (m,)), STok(("evecs", t.term), (m, n))
+
+    def solve(a, b):
+        m, n = a.shape
+        if m != n or b.shape[0] != m:
+            raise ValueError(f"solve with abstract blocks of shapes {a.shape}, {b.shape}")
+        return STok(("solve", a.term, b.term), (n,) + b.shape[1:])
+
+    def transpose(t, perm=None):
+        perm = tuple(range(t.ndim))[::-1] if perm is None else tuple(perm)
+        if sorted(perm) != list(range(t.ndim)):
+            raise ValueError(f"transpose of shape {t.shape} with axes {perm}")
+        if perm == tuple(range(t.ndim)):
+            return t
+        return STok(("transpose", t.term, perm), tuple(t.shape[p] for p in perm))
+
+    def reshape(t, shape):
+        return t.reshape(tuple(shape))
+
+    def tensordot(a, b, axes=2):
+        if isinstance(axes, int):
+            axa, axb = tuple(range(a.ndim - axes, a.ndim)), tuple(range(axes))
+        else:
+            axa, axb = axes
+            axa = (axa,) if isinstance(axa, int) else tuple(axa)
+            axb = (axb,) if isinstance(axb, int) else tuple(axb)
+        axa = tuple(x % a.ndim for x in axa)
+        axb = tuple(x % b.ndim for x in axb)
+        if [a.shape[i] for i in axa] != [b.shape[j] for j in axb]:
+            raise ValueError(f"tensordot of abstract blocks {a.shape} x {b.shape} over {axa},{axb}: contracted sizes differ")
+        shape = tuple(d for i, d in enumerate(a.shape) if i not in axa) + tuple(d for j, d in enumerate(b.shape) if j not in axb)
+        return STok(("tensordot", a.term, b.term, axa, axb), shape)
+
+    def matmul(a, b):
+        if a.shape[-1] != b.shape[0]:
+            raise ValueError(f"matmul of abstract blocks {a.shape} @ {b.shape}")
+        return STok(("matmul", a.term, b.term), a.shape[:-1] + b.shape[1:])
+
+    def zeros(shape, **kw):
+        return ZTok(tuple(shape))
+
+    def concatenate(parts, axis=0):
+        parts = list(parts)
+        base = parts[0].shape
+        axis = axis % len(base)
+        for p in parts:
+            if len(p.shape) != len(base) or any(i != axis and d != e for i, (d, e) in enumerate(zip(p.shape, base))):
+                raise ValueError(f"concatenate of abstract blocks {[q.shape for q in parts]} along axis {axis}")
+        shape = list(base)
+        shape[axis] = sum(p.shape[axis] for p in parts)
+        return STok(("concat", axis, tuple((p.term, p.shape) for p in parts)), shape)
+
+    def conj(t):
+        return STok(("conj", t.term), t.shape)
+
+    return {"linalg.qr": qr, "linalg.svd": svd, "linalg.eigh": eigh, "linalg.solve": solve, "transpose": transpose,
+            "reshape": reshape, "tensordot": tensordot, "matmul": matmul, "zeros": zeros, "concatenate": concatenate,
+            "conj": conj}
+
+
+class ZTok(STok):
+    """a zero-filled abstract block that records slice assignments (strategy `insert` of fusing)"""
+
+    def __init__(self, shape):
+        super().__init__(("zeros", tuple(shape)), shape)
+        self.placed = {}
+
+    def __setitem__(self, k, v):
+        ks = k if isinstance(k, tuple) else (k,)
+        if len(ks) != len(self.shape):
+            raise IndexError(f"selector {ks} on a zero block of shape {self.shape}")
+        rng = []
+        for d, sl in zip(self.shape, ks):
+            if not isinstance(sl, slice):
+                raise IndexError("non-slice selector on a zero block")
+            r = range(*sl.indices(d))
+            rng.append((r.start, r.stop))
+        want = tuple(b - a for a, b in rng)
+        if getattr(v, "shape", None) != want:
+            raise ValueError(f"placing a block of shape {getattr(v, 'shape', None)} into a window of shape {want}")
+        self.placed[tuple(rng)] = v.term
+        self.term = ("placed", tuple(self.shape), tuple(sorted(self.placed.items(), key=repr)))
+
+
+def shaped_libfn(table=None):
+    table = table or shaped_backend()
+
+    def get(backend, name):
+        if name in table:
+            return table[name]
+        short = name.split(".")[-1]
+        if short in table:
+            return table[short]
+
+        def generic(*args, **kwargs):
+            shp = next((a.shape for a in args if isinstance(a, STok)), ())
+            return STok((short,) + tuple(getattr(a, "term", ("const", repr(a))) for a in args), shp)
+
+        return generic
+
+    return get
+
+
+def shaped_evaluator(prog, extra=None, max_steps=400000):
+    get = shaped_libfn()
+    st = {
+        "ar.get_lib_fn": get,
+        "ar.shape": lambda t: t.shape,
+        "ar.size": lambda t: t.size,
+        "ar.ndim": lambda t: t.ndim,
+        "ar.do": lambda name, *a, like=None, **kw: get(like, name)(*a, **kw),
+    }
+    st.update(extra or {})
+    return evaluator(prog, extra=st, max_steps=max_steps)
